@@ -470,6 +470,13 @@ def run_cli(ctx):
         case['compression'] = comp
         paths = materialise(ctx, case, 900000 + k)
         names = [os.path.basename(p) for p in paths]
+        if len(names) > 1 and k % 2 == 0:
+            # the documented order is the order of the ARGUMENTS: hand the files over in a non-lexicographic order
+            # (f2 f0 f1 ...), so that a sorted() anywhere on the way is visible
+            perm = list(range(len(names)))[::-1] if len(names) == 2 else [len(names) - 1] + list(range(len(names) - 1))
+            names = [names[i] for i in perm]
+            paths = [paths[i] for i in perm]
+            case = dict(case, files=[case['files'][i] for i in perm])
         argv = cli_argv(rng, case['fields'], names, style)
         case = dict(case, cli=True, argv=argv, style=style)
         cmd = [vcommon.PY, '-B', '-m', 'abacusnbody.data.pipe_asdf'] + argv
